@@ -64,9 +64,24 @@ func str(n int) string {
 		}
 		return sb.String()
 	}
+	// text is opaque to a codec: both letter cases, digits, separators, blanks
+	const alphabet = "aBc.XyZ-019_ qRsT/u:V@w"
 	b := make([]byte, n)
 	for i := range b {
-		b[i] = byte('a' + (i*7+n)%26)
+		b[i] = alphabet[(i*7+n)%len(alphabet)]
+	}
+	return string(b)
+}
+
+// hostStr: n bytes that can stand in the host part of a URL (letters of both cases, digits, dots, dashes)
+func hostStr(n int) string {
+	if utf8Mode {
+		return str(n)
+	}
+	const alphabet = "aBc.XyZ-019qRsT"
+	b := make([]byte, n)
+	for i := range b {
+		b[i] = alphabet[(i*7+n)%len(alphabet)]
 	}
 	return string(b)
 }
@@ -360,7 +375,7 @@ func pass(thorough bool, nst int) {
 			m, err := authgrants.ReadConfOrDenial(bytes.NewReader(b))
 			return m.Data.Denial, err
 		}, reason)
-		u := core.URL{User: "u", Host: str(n), Port: "77"}
+		u := core.URL{User: "u", Host: hostStr(n), Port: "77"} // a URL travels as text and is parsed back: host characters only
 		rt("targetinfo", map[string]int{"url": len(u.String())}, true, func() ([]byte, error) {
 			var buf bytes.Buffer
 			err := authgrants.WriteTargetInfo(u, &buf)
